@@ -482,7 +482,7 @@ THEOREMS: dict[str, list[str]] = {p: [] for p in PLANS}
 THEOREMS["C01"] = [
     "Pest.C01.gen_equiv_interp", "Pest.C01.trivia_gen_eq", "Pest.C01.generated_parse_eq", "Pest.C01.gen_no_exc",
     "Pest.run_gen", "Pest.step_gen", "Pest.rule_gen", "Pest.popAllLoop_full", "Pest.srel_restore", "Pest.srel_ok",
-    "Pest.run_good",
+    "Pest.run_good", "Pest.Tables.expression_classes_covered", "Pest.Tables.special_builtins_match",
 ]
 THEOREMS["C03"] = [
     "Pest.C03.interp_refines_spec", "Pest.C03.parse_agrees_with_spec", "Pest.C03.interp_exc_only_undefined",
@@ -498,6 +498,7 @@ THEOREMS["C04"] = [
     "Pest.C04.atomic_rule_single_pair", "Pest.C04.visible_spec", "Pest.C04.compound_keeps_children",
     "Pest.C04.trivia_pairs_where_matched",
     "Pest.Tables.modifier_bits_match", "Pest.Tables.modifier_symbols_match", "Pest.Tables.default_passes_match",
+    "Pest.Tables.expression_classes_covered", "Pest.Tables.special_builtins_match",
 ]
 THEOREMS["C05"] = [
     "Pest.C05.push_spec", "Pest.C05.push_literal_spec", "Pest.C05.peek_spec", "Pest.C05.pop_spec", "Pest.C05.drop_spec",
